@@ -353,6 +353,14 @@ def dedup_idiom(ctx, prog, fe, rule, name, key_pred=None):
     revs = fe.calls_to(lambda f: M.callee_str(f).endswith("core::slice::<impl [T]>::reverse"))
     col = fe.calls_to(lambda f: M.callee_str(f) == "std::iter::Iterator::collect")
     rev_after = len(revs) == 1 and len(col) == 1 and dominated_by_blocks(fe, revs[0][0], [col[0][0]]) and all(dominated_by_blocks(fe, r_, [revs[0][0]]) for r_ in fe.return_blocks())
+    if not revs and len(col) == 1:
+        # or the vector is read backwards where it is consumed: every iteration over the collected vector goes through .rev()
+        is_col = lambda u: u[0] == "call" and u[1] == "std::iter::Iterator::collect" and len(u) > 3 and u[3] == col[0][0]
+        walks = [(b_, t_) for b_, t_ in fe.calls() if (M.callee_str(t_["f"]).endswith("into_iter") or M.callee_str(t_["f"]).endswith("::iter"))
+                 and is_col(M.noref(M.strip(Tfe.operand(t_["args"][0]), also=("<std::vec::Vec<T, A> as std::ops::Deref>::deref",))))]
+        back = [(b_, t_) for b_, t_ in fe.calls_to(lambda f: M.callee_str(f) == "std::iter::Iterator::rev")
+                if any(M.noref(Tfe.operand(t_["args"][0])) == M.noref(("call", M.callee_str(w_["f"]), tuple(Tfe.operand(a_) for a_ in w_["args"]), wb_)) for wb_, w_ in walks)]
+        rev_after = len(walks) == 1 and len(back) == 1
     ctx.ob(rule, "%s.dedup-keeps-last" % name, rev_before, fe.loc(first_wins[0]),
            "filter(seen.insert(key)) keeps the first occurrence in iteration order; for the LATER duplicate to win the iteration must be reversed first (.rev() before .filter())")
     ctx.ob(rule, "%s.original-order-restored" % name, rev_before and rev_after, fe.loc(first_wins[0]),
